@@ -156,6 +156,122 @@ func runC04(c *Ctx) {
 	}
 	c.Floor("C04.INDEX", 3, "getSchema, inferSchema, getColumnSignature (and the merge)")
 
+	// ---- SLICE: constant bounds on payload text in the text parsers
+	c.Rule("C04.SLICE", "DOM: in the payload text parsers (TLE, line protocol) every slice or index of a string / byte slice with a constant bound is reached only where a length test of that same value covers the bound (len(s) >= hi, or the `len(s) < n → reject` form)")
+	nS := 0
+	for _, fn := range p.FuncsIn("internal/ingest") {
+		pos := p.Pos(fn.Pos())
+		if !strings.Contains(pos, "ingest/tle.go") && !strings.Contains(pos, "ingest/lineprotocol.go") {
+			continue
+		}
+		for _, in := range instrs(fn, true) {
+			var x ssa.Value
+			var need int64 = -1
+			switch v := in.(type) {
+			case *ssa.Slice:
+				if _, isArr := v.X.Type().Underlying().(*types.Pointer); isArr {
+					continue // slicing a fixed-size array
+				}
+				if v.High != nil {
+					if k, ok := constInt(v.High); ok {
+						x, need = v.X, k
+					}
+				}
+				if v.Low != nil {
+					if k, ok := constInt(v.Low); ok && k > need && k > 0 {
+						x, need = v.X, k
+					}
+				}
+			}
+			if x == nil || need <= 0 {
+				continue
+			}
+			if _, isConst := x.(*ssa.Const); isConst {
+				continue
+			}
+			// slices the function made itself with a constant size are fine
+			if mk, ok := x.(*ssa.MakeSlice); ok {
+				if n, ok := constInt(mk.Len); ok && n >= need {
+					continue
+				}
+			}
+			if sl, ok := x.(*ssa.Slice); ok {
+				if _, isArr := sl.X.Type().Underlying().(*types.Pointer); isArr {
+					continue
+				}
+			}
+			nS++
+			at := in
+			okF := func(fs []fact) bool {
+				for _, f := range fs {
+					if f.Kind != factCmp {
+						continue
+					}
+					cl, ok := f.X.(*ssa.Call)
+					if !ok {
+						continue
+					}
+					if b, ok := cl.Call.Value.(*ssa.Builtin); !ok || b.Name() != "len" || !(cl.Call.Args[0] == x || c04SameElem(cl.Call.Args[0], x)) {
+						continue
+					}
+					lim, ok := constInt(f.Y)
+					if !ok {
+						continue
+					}
+					if (f.Op == token.GEQ && lim >= need) || (f.Op == token.GTR && lim >= need-1) || (f.Op == token.EQL && lim >= need) || (f.Op == token.NEQ && lim == 0 && need == 1) {
+						return true
+					}
+				}
+				return false
+			}
+			good := okF(factsAt(at)) || holdsOnAllPaths(at.Block(), okF, 8, nil)
+			if !good {
+				// an unexported helper's parameter: every caller must have established the bound for the argument it passes
+				if prm, ok := x.(*ssa.Parameter); ok && !token.IsExported(in.Parent().Name()) {
+					idx := -1
+					for i, q := range in.Parent().Params {
+						if q == prm {
+							idx = i
+						}
+					}
+					nCallers, allOK := 0, true
+					for _, g := range p.FuncsIn("internal/ingest") {
+						for _, call := range callsIn(g, true) {
+							if call.Common().StaticCallee() != in.Parent() || idx < 0 {
+								continue
+							}
+							nCallers++
+							arg := call.Common().Args[idx]
+							argOK := func(fs []fact) bool {
+								for _, f := range fs {
+									if f.Kind != factCmp {
+										continue
+									}
+									cl, ok := f.X.(*ssa.Call)
+									if !ok {
+										continue
+									}
+									if b, ok := cl.Call.Value.(*ssa.Builtin); !ok || b.Name() != "len" || cl.Call.Args[0] != arg {
+										continue
+									}
+									if lim, ok := constInt(f.Y); ok && ((f.Op == token.GEQ && lim >= need) || (f.Op == token.GTR && lim >= need-1)) {
+										return true
+									}
+								}
+								return false
+							}
+							if !(argOK(factsAt(call.(ssa.Instruction))) || holdsOnAllPaths(call.Block(), argOK, 8, nil)) {
+								allOK = false
+							}
+						}
+					}
+					good = nCallers > 0 && allOK
+				}
+			}
+			c.Check(good, "C04.SLICE", fmt.Sprintf("%s|bound-%d#%d", in.Parent().Name(), need, nS), in.Pos(), fmt.Sprintf("bound %d covered by a length test", need), fmt.Sprintf("%s slices/indexes payload text up to byte %d without a length test of that value covering it: a short line panics the handler (`slice bounds out of range`)", in.Parent().Name(), need))
+		}
+	}
+
 	// ---- SIG
 	// the name tests under which a column takes part: canonical strings such as "len!=0", "[0]!=95"
 	nameTests := func(at ssa.Instruction, name ssa.Value) string {
@@ -451,4 +567,16 @@ func c04SchemaLoopAs(c *Ctx, rule string) {
 		}
 	}
 
+}
+
+// c04SameElem: two loads of the same slice element (same base, same index value) — `len(lines[i]) >= 2` then `line := lines[i]`.
+func c04SameElem(a, b ssa.Value) bool {
+	la, ok1 := a.(*ssa.UnOp)
+	lb, ok2 := b.(*ssa.UnOp)
+	if !ok1 || !ok2 || la.Op != token.MUL || lb.Op != token.MUL {
+		return false
+	}
+	ia, ok1 := la.X.(*ssa.IndexAddr)
+	ib, ok2 := lb.X.(*ssa.IndexAddr)
+	return ok1 && ok2 && ia.X == ib.X && ia.Index == ib.Index
 }
